@@ -28,6 +28,7 @@ type Script struct {
 	Chunks   []Chunk
 	Endless  bool // after the chunks: keep the process alive (silent) until killed
 	FinalMs  int  // delay before exit
+	LingerMs int  // after the chunks: close the output (the reader sees EOF) and stay alive this long
 	ExitCode int
 	// Fork: the shell forks a child (a pipeline or compound command) that does the work and holds the
 	// output pipe; only a signal to the whole process group reaches it.
@@ -284,6 +285,16 @@ func (p *Proc) run() {
 	if alive && p.script.FinalMs > 0 {
 		alive = p.sleep(p.script.FinalMs)
 	}
+	outClosed := false
+	if alive && p.script.LingerMs > 0 {
+		// e.g. `echo x; exec >&- 2>&-; sleep 40`: the output is complete long before the process is gone
+		if p.pipe != nil {
+			p.pipe.closeWrite()
+			outClosed = true
+		}
+		p.os.logf("proc %d closed its output, lingers", p.Pid)
+		alive = p.sleep(p.script.LingerMs)
+	}
 	zsim.Yield("proc.exit")
 	p.os.mu.Lock()
 	p.Alive = false
@@ -295,7 +306,7 @@ func (p *Proc) run() {
 	}
 	p.os.mu.Unlock()
 	p.os.logf("proc %d exit code=%d", p.Pid, p.ExitCode)
-	if p.pipe != nil {
+	if p.pipe != nil && !outClosed {
 		p.pipe.closeWrite()
 	}
 	close(p.doneCh)
